@@ -952,6 +952,11 @@ pub fn gen_c03<W: Write>(out: &mut W, thorough: bool, seed: u64) {
             r.shuffle(&mut l);
             layouts.push(l);
         }
+        // one case in four: the SAME list on both sides, stored once and shared (the pointer-equal fast paths)
+        let shared = r.chance(1, 4);
+        if shared {
+            layouts[1] = layouts[0].clone();
+        }
         let perturb = r.chance(1, 3);
         let which = r.below((layouts[1].len() + 1) as u64) as usize;
         let hperturb = r.chance(1, 2);
@@ -989,7 +994,7 @@ pub fn gen_c03<W: Write>(out: &mut W, thorough: bool, seed: u64) {
                         }
                     }
                 }
-                writeln!(out, " 0").unwrap();
+                writeln!(out, " {}", if shared { 9 } else { 0 }).unwrap();
             }
             writeln!(out, "cmp eq {} {}", a, b).unwrap();
             writeln!(out, "cmp eq {} {}", b, a).unwrap();
